@@ -108,3 +108,26 @@ Fixpoint spec_stream (n : nat) (st : list Z) : list Z * list Z :=
   | O => ([], st)
   | S n' => let '(a, st1) := spec_squeeze st in let '(b, st2) := spec_stream n' st1 in (a ++ b, st2)
   end.
+
+(* ---------------------------------------------------------------- sampling (C15) *)
+(* index sampling with k squeezes: the low 32 bits, reduced modulo the power-of-two bound, of the squeezed
+   elements different from p - 1, in order, the first n of them; the sponge is left after those k squeezes.
+   The property fixes k as the FEWEST squeezes that supply n accepted elements (spec_min_squeezes). *)
+Definition accepted (stream : list Z) : list Z := filter (fun e => negb (e =? spec_p - 1)) stream.
+Definition low32_mod (ub e : Z) : Z := (e mod 4294967296) mod ub.
+Definition spec_sample_indices (k : nat) (st : list Z) (ub : Z) (n : nat) : list Z * list Z :=
+  let '(stream, st') := spec_stream k st in (firstn n (map (low32_mod ub) (accepted stream)), st').
+Definition enough_squeezes (k : nat) (st : list Z) (n : nat) : bool :=
+  Nat.leb n (length (accepted (fst (spec_stream k st)))).
+(* least k <= fuel with enough accepted elements *)
+Fixpoint spec_min_squeezes_go (fuel k : nat) (st : list Z) (n : nat) : option nat :=
+  if enough_squeezes k st n then Some k
+  else match fuel with O => None | S f => spec_min_squeezes_go f (S k) st n end.
+Definition spec_min_squeezes (fuel : nat) (st : list Z) (n : nat) : option nat := spec_min_squeezes_go fuel 0 st n.
+
+(* scalar sampling: successive squeezed elements in groups of three; ceil(3n/10) squeezes *)
+Fixpoint groups3 (l : list Z) : list (list Z) :=
+  match l with a :: b :: c :: r => [a; b; c] :: groups3 r | _ => [] end.
+Definition spec_sample_scalars (st : list Z) (n : nat) : list (list Z) * list Z :=
+  let k := ((3 * n + 9) / 10)%nat in
+  let '(stream, st') := spec_stream k st in (firstn n (groups3 stream), st').
